@@ -269,6 +269,11 @@ func (e *Engine) builtin(s *State, f *Frame, b *ssa.Builtin, cc *ssa.CallCommon,
 		default:
 			panic(engineUnsupported("clear of slice"))
 		}
+	case "Sizeof":
+		// unsafe.Sizeof of a value whose type is only known per instantiation
+		set(C(64, uint64(types.SizesFor("gc", "amd64").Sizeof(cc.Args[0].Type()))))
+	case "Alignof":
+		set(C(64, uint64(types.SizesFor("gc", "amd64").Alignof(cc.Args[0].Type()))))
 	default:
 		panic(engineUnsupported("builtin " + b.Name()))
 	}
